@@ -357,6 +357,7 @@ class Interp:
     def s_ClassDef(self, st, env, module):
         bases = []
         is_enum = False
+        int_enum = False          # IntEnum members behave as ints: kept as plain ints
         is_exc = False
         for b in st.bases:
             try:
@@ -364,13 +365,15 @@ class Interp:
             except Unsupported:
                 bv = Opaque(ast.unparse(b))
             bn = ast.unparse(b)
-            if bn in ("Enum", "enum.Enum", "IntEnum", "enum.IntEnum"):
+            if bn in ("IntEnum", "enum.IntEnum"):
+                int_enum = True
+            elif bn in ("Enum", "enum.Enum"):
                 is_enum = True
             if isinstance(bv, ExcClass):
                 is_exc = True
             bases.append(bv)
         cls = ClassVal(st.name, module, bases, self._qual_prefix(env) + st.name)
-        cls.is_enum = is_enum or any(isinstance(b, ClassVal) and b.is_enum for b in bases)
+        cls.is_enum = (is_enum or any(isinstance(b, ClassVal) and b.is_enum for b in bases)) and not int_enum
         cls.is_exception = is_exc or any(isinstance(b, ClassVal) and b.is_exception for b in bases)
         cenv = Env(env, "class")
         cenv.cls_name = st.name
